@@ -119,7 +119,7 @@ def run(prop, tier, seed, a):
     if code == 3:
         for r in errors: print("CHECKER-ERROR obligation=%s %s" % (r.get('name'), r.get('detail', '')[:800]))
         for r in disagree: print("SOLVER-DISAGREEMENT obligation=%s %s" % (r['name'], r.get('detail')))
-    counted = [r for r in results if r.get('meta', {}).get('kind') != 'fingerprint']
+    counted = [r for r in results if r.get('meta', {}).get('kind') != 'fingerprint' and not r.get('known_finding')]
     n_dis = sum(1 for r in counted if r['status'] == 'discharged')
     backends = {}
     for r in results:
